@@ -104,7 +104,13 @@ class Unit:
             body = weave.insert_tail(body, tail, unit_ret=not named)
         key = f"{mod}|{impl}|{name}"
         self.functions.append(key)
-        return f"{attrs}{sig}\n{contract}\n{body}\n"
+        text = f"{attrs}{sig}\n{contract}\n{body}\n"
+        # must-fail canary: same signature and contract, body `assert(false)`; it has to FAIL (a canary that verifies means the
+        # precondition or the axioms in scope are contradictory, i.e. the real function's proof would be vacuous)
+        if not hasattr(self, 'canaries'):
+            self.canaries = {}
+        self.canaries[text] = f"{attrs}{sig}\n{contract}\n{{ proof {{ assert(false); }} {'vstd::pervasive::unreached()' if named else ''} }}\n"
+        return text
 
     # ---------------------------------------------------------------- output
     HEAD = ("use vstd::prelude::*;\nuse vstd::arithmetic::div_mod::*;\nuse vstd::arithmetic::mul::*;\n"
@@ -117,6 +123,20 @@ class Unit:
         return self.HEAD + "\n".join(self.parts) + \
             "\n// ---- generated lemma statements (proved in the lemma files of this unit) ----\n" + \
             stm + self.close + "\n} // verus!\nfn main() {}\n"
+
+    def canary_text(self):
+        """the main file with every function under contract replaced by its must-fail canary, plus a canary for the axioms in scope.
+        Returns (text, [line number of each canary])."""
+        t = self.verus_text()
+        can = getattr(self, 'canaries', {})
+        for k, (orig, c) in enumerate(can.items()):
+            if orig in t:
+                t = t.replace(orig, f"/*CANARY{k}*/\n" + c)
+        tail = self.close + "\n} // verus!\nfn main() {}\n"
+        if self.close and t.endswith(tail):
+            t = t[:-len(tail)] + f"/*CANARY_AX*/\nproof fn canary_axioms_in_scope() {{ assert(false); }}\n" + tail
+        lines = [t.count('\n', 0, m.start()) + 1 for m in re.finditer(r'/\*CANARY\w+\*/', t)]
+        return t, lines
 
     def lemma_files(self, nbins=12):
         """[(suffix, text)]: lemma proofs bin-packed by size; every file is self-contained"""
